@@ -858,6 +858,22 @@ pub fn spaces(tier: Tier) -> Vec<Space> {
             eval_script(std::slice::from_ref(t), &e, ALL_LEGS, acc, case);
         }));
     }
+    // 1a+. every two-byte payload (all 65536), and in the thorough tier every three-byte payload, as a single minimal push:
+    // hex text that happens to spell something else (an alias, an opcode name with or without its prefix) must come back as data
+    {
+        let e = env.clone();
+        v.push(Space::new("every-2-byte-payload", 65536, move |case, acc| {
+            let toks = [Tok::Push(vec![(case.idx >> 8) as u8, case.idx as u8])];
+            eval_script(&toks, &e, FEW_LEGS, acc, case);
+        }));
+        if tier.is_thorough() {
+            let e = env.clone();
+            v.push(Space::new("every-3-byte-payload", 1 << 24, move |case, acc| {
+                let toks = [Tok::Push(vec![(case.idx >> 16) as u8, (case.idx >> 8) as u8, case.idx as u8])];
+                eval_script(&toks, &e, FEW_LEGS, acc, case);
+            }));
+        }
+    }
     // 1a'. every push payload length 1..=N (interior lengths), alone and inside a conditional branch
     {
         let e = env.clone();
